@@ -59,6 +59,7 @@ Section Frag.
     | PReset _ => true
     | PMoveCtor _ _ => true
     | PDel p => PropGrowMore.no_reader_b w p
+    | PMoveAssign dst _ => PropGrowMore.no_reader_b w dst
     | _ => act2_opb w o
     end.
   Lemma grow_act_opb_sound w o : grow_act_opb w o = true -> PropGrowAct2.grow_act2_op w o.
